@@ -387,7 +387,7 @@ func TestC09Engine(t *testing.T) {
 		var mu sync.Mutex
 		hk := &drive.Hooks{
 			NewInst: func(x string, vars map[string]any) (*drive.Inst, error) {
-				in, err := drive.New(x, drive.Options{Vars: vars})
+				in, err := drive.New(x, drive.Options{Vars: vars, SplitCtx: c.CancelBuildAfter > 0})
 				if err != nil {
 					return nil, err
 				}
@@ -453,6 +453,12 @@ func TestC09Engine(t *testing.T) {
 			c.Vars[fmt.Sprintf("lp%d", i)] = false
 		}
 		c.Perturb = uint64(rapid.IntRange(0, 300).Draw(rt, "perturb"))
+		if blk.Features().Sub == 0 && rapid.IntRange(0, 3).Draw(rt, "cancelBuild") == 0 {
+			// the construction context ends mid-run, the instance lives on the
+			// context it was started with: nothing may get lost on the way to the
+			// subscribers (relays and tracers were created under the construction context)
+			c.CancelBuildAfter = rapid.IntRange(1, 3).Draw(rt, "cancelBuildAfter")
+		}
 		pick := func(n int) int {
 			v := rapid.IntRange(0, n-1).Draw(rt, "pick")
 			c.Schedule = append(c.Schedule, v)
@@ -467,11 +473,18 @@ func TestC09Engine(t *testing.T) {
 			rt.Fatalf("inconclusive: %s", out.Inconcl)
 		}
 		rec.End(hash, sym)
-		rec.Case("TestC09Engine", hash, forks >= 1, []string{fmt.Sprintf("forks>=1:%v", forks >= 1)}, map[string]any{"case": c, "forks": forks})
+		cls := []string{fmt.Sprintf("forks>=1:%v", forks >= 1)}
+		if c.CancelBuildAfter > 0 {
+			cls = append(cls, "constructionContextCancelledMidRun")
+		}
+		rec.Case("TestC09Engine", hash, forks >= 1, cls, map[string]any{"case": c, "forks": forks})
 		if sym == "" {
 			return
 		}
-		if sym != "causality" && sym != "subscribers-differ" {
+		if sym != "causality" && sym != "subscribers-differ" && c.CancelBuildAfter == 0 {
+			// (with the construction context cancelled mid-run every symptom counts:
+			// the same program conforms without the cancellation, so what is missing
+			// afterwards was lost on its way to the subscribers)
 			// conformance failures are C01's business; C09 only owns the grammar
 			if rec.Unrestricted() || true {
 				return
